@@ -1,12 +1,39 @@
 import GenjaxModel.Proofs.Adev
+import GenjaxModel.Proofs.AdevDet2Table
 /-!
 # C15 — on deterministic code ADEV is ordinary forward-mode AD
 
-Partial. Model `Model/AdevDet.lean`: straight-line programs (const/add/sub/mul/neg/cond) over dual
-numbers; the ADEV interpreter is continuation-passing, forward-mode AD is a left fold. Proved for
-every program and environment. The per-primitive JVP rules, tangent shapes, float0/symbolic-zero
-handling and dtype conversions are JAX's / runtime behaviour: they are exercised by the corpus of
-the correspondence run against jax.jvp / jax.grad, not modelled.
+Two models.
+
+1. `Model/AdevDet.lean` (first part of this file): straight-line programs (const/add/sub/mul/neg/cond)
+   over dual numbers; the ADEV interpreter is continuation-passing, forward-mode AD is a left fold.
+   Proved for every program and environment.
+
+2. `Model/AdevDet2.lean` (second part, `C15_adev2_…`): the interpreter's default branch as it is
+   written (src/genjax/adev/__init__.py:603-642) - values tagged float | discrete, discrete values
+   with float0 tangents canonicalised to the symbolic AD zero, tangents `zero | tan d`, rules that
+   receive and return symbolic zeros, instantiation of the returned zeros, the nullary case, the
+   "ALL input tangents are symbolic zeros => primal only" fast path as a `Cfg` field (with the two
+   seeded wrong conditions as further values of that field), primitives from a table with SEVERAL
+   outputs of mixed kind, `call` (pjit) and `fori` (scan with static trip count, carry mixing a
+   counter and float state) as ONE multi-output equation whose JVP rule is JAX's forward mode of the
+   body, and `cond` on a discrete predicate in continuation-passing style with the rest of the program
+   as the continuation of either branch. Proved: for every program, environment and continuation the
+   interpreter with the correct fast-path condition equals the reference forward mode (symbolic zero
+   read as 0); the wrong conditions have proved counterexamples (the Lean witnesses of seeded C15_2 /
+   C11_1 and C15_3, replayed on the implementation by the harness); discrete values never carry a
+   tangent; a loop is the n-fold composition of its body in every semantics.
+
+What remains JAX's (assumed, exercised by the correspondence run against jax.jvp / jax.grad, not
+proved): the per-primitive JVP rules themselves. The theorems need of a rule only `Prim.Lawful`
+(primal outputs = value, one tangent per output, a symbolic zero means 0, zero tangents in give zero
+tangents out, discrete outputs get float0); `lawful_needed_cex` shows this cannot be dropped. For the
+standard table (arithmetic, division, abstract smooth / piecewise-constant / discretising functions,
+select, comparisons, integer arithmetic, int->float, mixed two-output primitives) and for `call` /
+`fori` lawfulness is PROVED, so `C15_adev2_is_forward_mode_table` has no hypothesis on primitives.
+Not modelled: tangent SHAPES (array-valued programs), dtype conversions between float widths, complex
+intermediates (seeded C15_1 - caught by the corpus of the correspondence run only), `cond` branches
+with several outputs (the implementation raises on those: `(out_dual,) = …`).
 -/
 namespace Genjax.Adev
 variable {K : Type} [Field K] [LinearOrder K]
@@ -23,3 +50,126 @@ theorem C15_dual_arithmetic_rules (a b : Dual K) :
   dual_rules a b
 
 end Genjax.Adev
+
+namespace Genjax.Adev2
+variable {K : Type} [Field K] [LinearOrder K] {P : Type}
+
+/-- Richer language, full statement. For every program `p` over primitives whose JVP rules are lawful,
+    every `Cfg` with the correct fast-path condition, every environment whose discrete entries have
+    tangent 0, and every output index: `jvp_estimate` (CPS interpreter with symbolic zeros, float0
+    canonicalisation, fast path, multi-output equations, call / fori / cond) returns the primal and
+    - reading a symbolic zero as 0 - the tangent of `jax.jvp`. Supersedes
+    `C15_adev_is_forward_mode_partial` (which stays: it is about `Model/AdevDet.lean`). -/
+theorem C15_adev2_is_forward_mode (cfg : Cfg) (hc : cfg.Good) (sem : P → Prim K) (hl : ∀ p, (sem p).Lawful)
+    (p : Prog P) (out : Nat) (env : List (DV K)) (h : WFJ (env.map DV.toRD)) :
+    (adevRun cfg sem p out env).toRD = jvpRun sem p out (env.map DV.toRD) :=
+  adev2_eq_jvp cfg hc sem hl p out env h
+
+/-- … with any final continuation (the rest of a program after a deterministic block) -/
+theorem C15_adev2_continuation {R : Type} (cfg : Cfg) (hc : cfg.Good) (sem : P → Prim K)
+    (hl : ∀ p, (sem p).Lawful) (kontA : List (DV K) → R) (kontJ : List (RD K) → R)
+    (hk : ∀ env, kontA env = kontJ (env.map DV.toRD)) (p : Prog P) (env : List (DV K))
+    (h : WFJ (env.map DV.toRD)) :
+    evalAProg cfg sem kontA p env = kontJ (evalJProg sem p (env.map DV.toRD)) :=
+  adev2_eq_jvp_kont cfg hc sem hl kontA kontJ hk p env h
+
+/-- the continuation hypothesis is satisfiable: any continuation of the reference semantics, precomposed
+    with "read symbolic zeros as 0"; e.g. "return the tangent of the last value" -/
+example : ∀ env : List (DV Rat),
+    (fun e : List (DV Rat) => ((e.map DV.toRD).getLastD default).d) env = (fun e : List (RD Rat) => (e.getLastD default).d) (env.map DV.toRD) :=
+  fun _ => rfl
+
+/-- … and for every program over the standard table, whatever its abstract functions are, with no
+    hypothesis on the primitives -/
+theorem C15_adev2_is_forward_mode_table (T : Table K) (cfg : Cfg) (hc : cfg.Good) (p : Prog (Op K)) (out : Nat)
+    (env : List (DV K)) (h : WFJ (env.map DV.toRD)) :
+    (adevRun cfg (Op.prim T) p out env).toRD = jvpRun (Op.prim T) p out (env.map DV.toRD) :=
+  adev2_eq_jvp_table T cfg hc p out env h
+
+/-- the hypotheses are satisfiable on a non-trivial instance (`where` on a comparison, the code's
+    configuration), and the conclusion can be computed there: value 9/8, tangent 9/4 -/
+example : Cfg.code.Good ∧ WFA whereEnv ∧
+    (adevRun Cfg.code (Op.prim Table.rat) whereProg 5 whereEnv).toRD = ⟨.flt (9/8), 9/4⟩ :=
+  ⟨by decide, by intro x hx hd; simp [whereEnv] at hx; rcases hx with rfl | rfl <;> simp [Val.isDis] at hd,
+   by decide +kernel⟩
+
+/-- one equation: the interpreter's default branch = the primitive's JVP rule on materialised tangents -/
+theorem C15_adev2_step (cfg : Cfg) (hc : cfg.Good) (p : Prim K) (hp : p.Lawful) (args : List (DV K)) :
+    (stepA cfg p args).map DV.toRD = stepJ p (args.map DV.toRD) := stepA_toRD cfg hc p hp args
+
+/-- the standard table is lawful, and so are `call` and `fori` equations over lawful primitives -/
+theorem C15_adev2_table_lawful (T : Table K) (o : Op K) : (Op.prim T o).Lawful := Op.prim_lawful T o
+
+theorem C15_adev2_call_loop_lawful (sem : P → Prim K) (hl : ∀ p, (sem p).Lawful) (n nc : Nat) (body : Prog P)
+    (outs : List Nat) : (callPrim sem body outs).Lawful ∧ (loopPrim sem n nc body outs).Lawful :=
+  ⟨callPrim_lawful sem hl body outs, loopPrim_lawful sem hl n nc body outs⟩
+
+/-- the continuation-passing interpreter computes its direct-style twin, under every configuration -/
+theorem C15_adev2_cps_is_direct {R : Type} (cfg : Cfg) (sem : P → Prim K) (p : Prog P)
+    (kont : List (DV K) → R) (env : List (DV K)) :
+    evalAProg cfg sem kont p env = kont (runAProg cfg sem p env) := evalAProg_eq cfg sem p kont env
+
+/-- Lean witness of seeded C15_2 / C11_1: with "ANY input tangent is a symbolic zero ⇒ primal only"
+    `where(x > y, x * y, x - y)` at (3/2, 3/4), tangents (1, 1), gets tangent 0 instead of 9/4 -/
+theorem C15_fast_path_any_cex :
+    (adevRun Cfg.anyZero (Op.prim Table.rat) whereProg 5 whereEnv).toRD = ⟨.flt (9/8), 0⟩ ∧
+    jvpRun (Op.prim Table.rat) whereProg 5 (whereEnv.map DV.toRD) = ⟨.flt (9/8), 9/4⟩ ∧
+    (adevRun Cfg.anyZero (Op.prim Table.rat) whereProg 5 whereEnv).toRD ≠
+      jvpRun (Op.prim Table.rat) whereProg 5 (whereEnv.map DV.toRD) := fast_path_any_cex
+
+/-- Lean witness of seeded C15_3: with "any discrete OUTPUT ⇒ primal only" a loop with carry
+    `(counter, value)` gets tangent 0 instead of 31/4 and a two-output primitive `(index, value)`
+    tangent 0 instead of 10 -/
+theorem C15_mixed_output_primal_only_cex :
+    ((adevRun Cfg.discreteOut (Op.prim Table.rat) counterLoopProg 4 counterLoopEnv).toRD = ⟨.flt (55/8), 0⟩ ∧
+     jvpRun (Op.prim Table.rat) counterLoopProg 4 (counterLoopEnv.map DV.toRD) = ⟨.flt (55/8), 31/4⟩) ∧
+    ((adevRun Cfg.discreteOut (Op.prim Table.rat) mixedProg 4 mixedEnv).toRD = ⟨.flt (25/2), 0⟩ ∧
+     jvpRun (Op.prim Table.rat) mixedProg 4 (mixedEnv.map DV.toRD) = ⟨.flt (25/2), 10⟩) :=
+  mixed_output_primal_only_cex
+
+/-- lawfulness of the rules cannot be dropped from `C15_adev2_is_forward_mode` -/
+theorem C15_adev2_lawful_needed_cex :
+    (adevRun Cfg.code (fun _ : Unit => badPrim) (.ofList [.prim () [0]]) 1 [⟨.dis 3, .zero⟩]).toRD ≠
+      jvpRun (fun _ : Unit => badPrim) (.ofList [.prim () [0]]) 1 [⟨.dis 3, 0⟩] := lawful_needed_cex
+
+/-- discrete values (ints, bools, comparison results, counters) carry NO tangent: under every
+    configuration - the wrong ones too - every discrete entry of the interpreter's environment and its
+    output have the symbolic zero (float0), provided the inputs do -/
+theorem C15_discrete_outputs_have_zero_tangent (cfg : Cfg) (sem : P → Prim K) (hl : ∀ p, (sem p).Lawful)
+    (p : Prog P) (out : Nat) (env : List (DV K)) (h : WFA env) :
+    WFA (runAProg cfg sem p env) ∧
+      ((adevRun cfg sem p out env).p.isDis = true → (adevRun cfg sem p out env).t = Tan.zero) :=
+  discrete_outputs_have_zero_tangent cfg sem hl p out env h
+
+/-- … and in the reference forward mode they have tangent 0 -/
+theorem C15_discrete_outputs_have_zero_tangent_jvp (sem : P → Prim K) (hl : ∀ p, (sem p).Lawful)
+    (p : Prog P) (out : Nat) (env : List (RD K)) (h : WFJ env) :
+    WFJ (evalJProg sem p env) ∧ ((jvpRun sem p out env).p.isDis = true → (jvpRun sem p out env).d = 0) :=
+  discrete_outputs_have_zero_tangent_jvp sem hl p out env h
+
+example : (adevRun Cfg.code (Op.prim Table.rat) counterLoopProg 3 counterLoopEnv) = ⟨.dis 3, .zero⟩ := by
+  decide +kernel
+
+/-- a concrete loop (carry `(counter, value)`, three iterations) in the reference forward mode -/
+example : evalJEqn (Op.prim Table.rat) (.fori 3 [0] [1, 2]
+      (.ofList [.prim (.iconst 1) [], .prim .iadd [1, 3], .prim .mul [2, 0], .prim .toFloat [1], .prim .add [5, 6]]) [4, 7])
+      [⟨.flt (3/2), 1⟩, ⟨.dis 0, 0⟩, ⟨.flt 1, 0⟩] = [⟨.dis 3, 0⟩, ⟨.flt (55/8), 31/4⟩] := by decide +kernel
+
+/-- a loop with trip count `n` is the n-fold composition of its body: in the primal evaluation, in the
+    reference forward mode, and - for the interpreter, which sees ONE scan equation and decides the
+    fast path once on the loop's operands - up to reading symbolic zeros as 0 -/
+theorem C15_fori_is_iterate (cfg : Cfg) (hc : cfg.Good) (sem : P → Prim K) (hl : ∀ p, (sem p).Lawful)
+    (n : Nat) (consts ins : List Nat) (body : Prog P) (outs : List Nat) (env : List (DV K))
+    (h : WFJ (env.map DV.toRD)) :
+    evalPEqn sem (.fori n consts ins body outs) (env.map (·.p)) =
+      (fun c => gather (evalPProg sem body (gather (env.map (·.p)) consts ++ c)) outs)^[n] (gather (env.map (·.p)) ins) ∧
+    evalJEqn sem (.fori n consts ins body outs) (env.map DV.toRD) =
+      (fun c => gather (evalJProg sem body (gather (env.map DV.toRD) consts ++ c)) outs)^[n]
+        (gather (env.map DV.toRD) ins) ∧
+    (runAEqn cfg sem (.fori n consts ins body outs) env).map DV.toRD =
+      (fun c => gather (evalJProg sem body (gather (env.map DV.toRD) consts ++ c)) outs)^[n]
+        (gather (env.map DV.toRD) ins) :=
+  ⟨fori_primal_iterate sem n consts ins body outs _, fori_jvp_iterate sem n consts ins body outs _,
+   fori_adev_iterate cfg hc sem hl n consts ins body outs env h⟩
+
+end Genjax.Adev2
